@@ -44,7 +44,7 @@ func parseConfig(s string) config {
 
 func configs() []config {
 	var out []config
-	for _, conn := range []string{"publish", "behavior", "replay1", "replay2"} {
+	for _, conn := range []string{"publish", "behavior", "replay0", "replay1", "replay2"} {
 		for m := 0; m < 8; m++ {
 			out = append(out, config{Form: "share", Conn: conn, ROnErr: m&1 != 0, ROnComp: m&2 != 0, ROnZero: m&4 != 0})
 		}
@@ -65,6 +65,8 @@ func connector(conn string) func() ro.Subject[int] {
 		switch conn {
 		case "behavior":
 			return ro.NewBehaviorSubject(-1)
+		case "replay0":
+			return ro.NewReplaySubject[int](0)
 		case "replay1":
 			return ro.NewReplaySubject[int](1)
 		case "replay2":
@@ -78,6 +80,8 @@ func connModel(conn string) *sm.State {
 	switch conn {
 	case "behavior":
 		return sm.New(sm.Behavior, 0, -1)
+	case "replay0":
+		return sm.New(sm.Replay, 0, 0)
 	case "replay1":
 		return sm.New(sm.Replay, 1, 0)
 	case "replay2":
